@@ -31,7 +31,7 @@ pub fn def() -> PropDef {
 fn gen(rng: &mut Rng, tier: Tier) -> Value {
   // the order of the two calls matters for trees with caches: stream first
   // fills them by streaming, map() first fills them from the inner map()
-  json!({ "spec": super::c02::ascii_tree_case(rng, tier), "map_first": rng.chance(1, 2), "share_instances": rng.chance(1, 2) })
+  json!({ "spec": super::c02::ascii_tree_case(rng, tier), "map_first": rng.chance(1, 2), "share_instances": rng.chance(1, 2), "columns_first": rng.chance(1, 2) })
 }
 
 fn check(case: &Value, obs: &mut Obs) {
@@ -42,7 +42,9 @@ fn check(case: &Value, obs: &mut Obs) {
   obs.class(if map_first { "map_then_stream" } else { "stream_then_map" });
   let mut mapped_chars = 0u64;
   let mut unmapped_chars = 0u64;
-  for columns in [true, false] {
+  // which column setting is asked first is drawn per case as well
+  let first_columns = case.get("columns_first").and_then(|v| v.as_bool()).unwrap_or(true);
+  for columns in [first_columns, !first_columns] {
     let opts = MapOptions::new(columns);
     let (rec, map) = if map_first {
       let map = src.map(&opts);
